@@ -1,6 +1,7 @@
 (* C06 - Recurring jobs: exactly one successor per run, on a steady cadence.
    Statements only; every proof is `exact <lemma>`. *)
 From Repid Require Import Base Sched SchedProofs Handle Ladder LadderProofs.
+From Repid Require Import GenSched GenSchedProofs.
 
 (* exactly one successor: the single terminal call (C02_process_one_terminal) is a requeue under the same id *)
 Theorem C06_one_successor : forall pol p success now,
@@ -63,6 +64,12 @@ Theorem C06_reschedule_restarts_clock : forall p now t now',
   overdue (p_ts (prepare_reschedule p now)) (p_ttl (prepare_reschedule p now)) now' = false.
 Proof. exact reschedule_restarts_clock. Qed.
 
+(* the source is the model: generated from /repo's current source on every run (harness/translate.py), proved equal *)
+Theorem C06_source_is_model_compute_next : forall p now, gen_compute_next p now = compute_next p now.
+Proof. exact gen_compute_next_eq. Qed.
+Theorem C06_source_is_model_prepare_reschedule : forall p now, gen_prepare_reschedule p now = prepare_reschedule p now.
+Proof. exact gen_prepare_reschedule_eq. Qed.
+
 Print Assumptions C06_one_successor.
 Print Assumptions C06_successor_reset.
 Print Assumptions C06_successor_window.
@@ -74,3 +81,5 @@ Print Assumptions C06_cadence_partial.
 Print Assumptions C06_cadence_after_deferred_until_refuted.
 Print Assumptions C06_cadence_aligned.
 Print Assumptions C06_reschedule_restarts_clock.
+Print Assumptions C06_source_is_model_compute_next.
+Print Assumptions C06_source_is_model_prepare_reschedule.
